@@ -11,6 +11,9 @@ def _cat(parts):
     return ",".join(parts) if parts else "-"
 
 
+SOLO_RERUNS = [0]     # at most six time-outs per run are looked at individually (a slow machine must not make the check endless)
+
+
 def _run_shard(args):
     cases, base, timeout = args[:3]
     solo = len(args) > 3
@@ -56,10 +59,11 @@ def _run_shard(args):
                 elif rc in (0, 1): recs.append("END exit %d" % rc)
                 else: recs.append("END died rc=%s" % rc)
                 res[cur] = "|".join(recs)
-                if timed and not solo:
+                if timed and not solo and SOLO_RERUNS[0] < 6:
+                    SOLO_RERUNS[0] += 1
                     # was it this case, or only the shard's time limit on a loaded machine? run the case on its own: a record
-                    # then counts; no end within 30 s means the real code does not return on this case (judged: `END hang`)
-                    one = _run_shard(([cases[cur]], 0, 30, True))[0]
+                    # then counts; no end within 60 s means the real code does not return on this case (judged: `END hang`)
+                    one = _run_shard(([cases[cur]], 0, 60, True))[0]
                     res[cur] = one[:-len("END timeout")] + "END hang" if one.endswith("END timeout") else one
                 start = cur + 1
             else:
